@@ -57,7 +57,7 @@ def plan(tier):
 def histories(draw):
     ops, G = gen.gen_model_ops(draw, FEAT)
     for _ in range(draw(st.integers(8, 24))):
-        k = draw(st.integers(0, 11))
+        k = draw(st.integers(0, 13))
         sids = gen.all_ctx_ids(G) + gen.item_sids(G, 2)
         if not sids:
             break
@@ -75,6 +75,48 @@ def histories(draw):
             names = G.cells_names(ctx.base)
             what = draw(st.sampled_from(names + [None] + list(ctx.base.children)))
             ops.append(["capture", gen._jsid(sid), what])
+        elif k == 12:
+            # a space elsewhere inherits from a NESTED child of a top-level space; handles to what it derives are
+            # taken, a value is computed from it, then the top-level space is deleted
+            tops = [t for t in G.spaces.values() if t.children]
+            outs = [o for o in G.all_spaces() if tops and o.path[0] != tops[0].path[0]]
+            if tops and outs:
+                t = draw(st.sampled_from(tops))
+                ch = draw(st.sampled_from(sorted(t.children.values(), key=lambda c: c.path)))
+                o = draw(st.sampled_from([o for o in G.all_spaces() if o.path[0] != t.path[0]] or outs))
+                seq = [["add_bases", list(o.path), [list(ch.path)]]]
+                if gen.apply_edit_to_picture(G, seq[0], allow_dangling=True):
+                    ops.append(seq[0])
+                    for n in G.cells_names(ch)[:2]:
+                        ops.append(["capture", gen._jsid(o.path), n])
+                        cdef = G.find_cells(ch, n)[1]
+                        ops.append(["eval", gen._jsid(o.path), n, [0] * len(cdef.params), None, "()"])
+                    op = ["del_space", list(t.path)]
+                    if gen.apply_edit_to_picture(G, op, allow_dangling=True):
+                        ops.append(op)
+        elif k == 13:
+            # a cells in another space reads, through an attribute path, a reference that a sub space DERIVES;
+            # the sub space is deleted
+            subs = [s_ for s_ in G.all_spaces() if s_.bases and [n for n in G.ref_names(s_) if n not in s_.refs]]
+            if subs:
+                sub = draw(st.sampled_from(subs))
+                rn = draw(st.sampled_from([n for n in G.ref_names(sub) if n not in sub.refs]))
+                others = [o for o in G.all_spaces() if o.path[:len(sub.path)] != sub.path
+                          and G.find_cells(o, "rd0") is None and "rd0" not in o.children and G.find_ref(o, "rd0") is None]
+                if others:
+                    o = draw(st.sampled_from(others))
+                    e = ["name", "_model"]
+                    for part in sub.path:
+                        e = ["attr", e, part]
+                    rd = {"name": "rd0", "params": [], "expr": ["lst", "i", 1, ["attr", e, rn]], "cached": True,
+                          "allow_none": None, "form": "lambda", "tick": False}
+                    op = ["new_cells", list(o.path), rd]
+                    if gen.apply_edit_to_picture(G, op, allow_dangling=True):
+                        ops.append(op)
+                        ops.append(["eval", gen._jsid(o.path), "rd0", [], None, "()"])
+                        op = ["del_space", list(sub.path)]
+                        if gen.apply_edit_to_picture(G, op, allow_dangling=True):
+                            ops.append(op)
         elif k == 6:
             items = gen.item_sids(G, 2)
             if items:
